@@ -304,6 +304,41 @@ def check(ctx):
         n_._parent = getattr(kc.node, '_parent', None)
         kc = _FI(n_, kc.module, kc.qualname, kc.parent, kc.cls)
         repo.func_of_node[id(n_)] = kc
+    # the key of a row is a function of that row and of the key specification alone: the calculator changes nothing that outlives the
+    # call (a cache of rendered values, a counter, the row itself) - what it would read back from there was written for another row,
+    # another field or another format
+    kident = toplevel_qualname(cands[0]) if getattr(cands[0].parent, 'cls', None) is kcls else kcls.qualname
+    run.rule('KEYP', 'KEY-PURE: the key calculator stores into, and calls mutators on, its own locals only; no nonlocal / global names')
+    own_locals = {n_.id for n_ in own_nodes(kc.node) if isinstance(n_, ast.Name) and isinstance(n_.ctx, ast.Store)}
+    impure = []
+    for n_ in own_nodes(kc.node):
+        if isinstance(n_, (ast.Nonlocal, ast.Global)):
+            impure.append(n_)
+        tg_ = []
+        if isinstance(n_, ast.Assign):
+            tg_ = n_.targets
+        elif isinstance(n_, (ast.AugAssign, ast.AnnAssign)):
+            tg_ = [n_.target]
+        elif isinstance(n_, ast.Delete):
+            tg_ = n_.targets
+        for t_ in tg_:
+            if isinstance(t_, (ast.Subscript, ast.Attribute)):
+                b_ = t_
+                while isinstance(b_, (ast.Subscript, ast.Attribute)):
+                    b_ = b_.value
+                if not (isinstance(b_, ast.Name) and b_.id in own_locals and b_.id not in kc.params):
+                    impure.append(n_)
+        if isinstance(n_, ast.Call) and isinstance(n_.func, ast.Attribute) and n_.func.attr in (
+                'append', 'extend', 'add', 'update', 'insert', 'pop', 'remove', 'clear', 'setdefault', 'popitem', 'discard',
+                'appendleft', '__setitem__', 'sort', 'reverse'):
+            b_ = n_.func.value
+            while isinstance(b_, (ast.Subscript, ast.Attribute)):
+                b_ = b_.value
+            if not (isinstance(b_, ast.Name) and b_.id in own_locals and b_.id not in kc.params):
+                impure.append(n_)
+    run.check(not impure, 'KEYP', where(repo, impure[0]) if impure else kc.where, kident, 'the key calculator writes its own locals only',
+              'the key calculator keeps something between calls (%s): the fragment it produces for one row / field can come from what was '
+              'stored for another, and rows are then ordered by a key that is not theirs' % (u(impure[0])[:80] if impure else ''))
     # the name under which the format fragments of a format-string key are held (None for a list of names / a callable)
     fnames = set()
     for meth in kcls.methods.values():
